@@ -93,11 +93,9 @@ def main():
         else:
             sh(["git", "-C", "/repo", "worktree", "remove", "--force", tree])
         sh(["git", "-C", "/repo", "worktree", "remove", "--force", clean])
-        # put the generated tables back as they were (only files whose text differs are rewritten)
-        for f in gen_before:
-            cur = (gen_dir / f).read_text() if (gen_dir / f).exists() else None
-            if cur != gen_before[f]:
-                (gen_dir / f).write_text(gen_before[f])
+        # The generated tables now reflect the scratch tree; they are NOT put back (a restore from this
+        # run's snapshot clobbered tables that concurrent runs had regenerated in the meantime). Every
+        # check regenerates the tables it needs from its own VERIF_REPO when it starts.
     print(json.dumps(out, indent=1))
     return 0
 
